@@ -12,6 +12,7 @@ iter_begin t0 i0 | iter_next i0 | iter_done i0 | iter_delete i0 destroy|keep
 foreach t0 k1:3 k2:0 ...        callback flag word per ident (default 1 = CONTINUE; 2 = DELETE, 4 = ERROR)
 hashic <hex> | eqic <hex> <hex> case-insensitive hash / equality of byte_buf.c
 hl2 <hex>                       aws_hash_byte_cursor_ptr at the 4 alignments, aws_hash_string, aws_hash_c_string at the 4 alignments
+hl2v / hl2sv / hptrv / hcombv    the same against source/hash_table.c compiled with -DVALGRIND
 hl2s <hexkey> <hexafter>        the key as a sub-view of a larger buffer: following bytes vary, all 4 alignments
 hptr <hex64> | hcomb <hex64> <hex64>   aws_hash_ptr, aws_hash_combine
 ```
@@ -140,7 +141,38 @@ def parseDestr? (s : String) : Option (Bool × Bool) :=
 
 def bad (s : St) : St × List String := (s, ["bad-op"])
 
-def step (s : St) (t : List String) : St × List String :=
+/-- the content-hash ops (`hl2`, `hl2s`, `hptr`, `hcomb`; with suffix `v`: the -DVALGRIND build of the same functions,
+for which the model is the same byte-wise function — `c02_hashlittle2_any_address_valgrind`) -/
+def hashOp? (t : List String) : Option (List String) :=
+  match t with
+  | [op, hx] =>
+    if op == "hl2" || op == "hl2v" then
+      match parseHex? hx with
+      | some bs =>
+        let hb := hex64 (AwsVerif.Lookup3.hashBytes bs)
+        let hc := hex64 (AwsVerif.Lookup3.hashCStr bs)
+        some [s!"P {op} consistent=1", s!"W {op} cur={hb},{hb},{hb},{hb} str={hb} cstr={hc},{hc},{hc},{hc}"]
+      | none => some ["bad-op"]
+    else if op == "hptr" || op == "hptrv" then
+      match parseHexNat? hx with
+      | some p => some [s!"W {op} " ++ hex64 (AwsVerif.Lookup3.hashPtr (p % 2 ^ 64))]
+      | none => some ["bad-op"]
+    else none
+  | [op, x, y] =>
+    if op == "hl2s" || op == "hl2sv" then
+      match parseHex? x, parseHex? y with
+      | some bs, some _ =>
+        let hb := hex64 (AwsVerif.Lookup3.hashBytes bs)
+        some [s!"P {op} consistent=1", s!"W {op} cur={hb},{hb},{hb},{hb}"]
+      | _, _ => some ["bad-op"]
+    else if op == "hcomb" || op == "hcombv" then
+      match parseHexNat? x, parseHexNat? y with
+      | some a, some b => some [s!"W {op} " ++ hex64 (AwsVerif.Lookup3.hashCombine (a % 2 ^ 64) (b % 2 ^ 64))]
+      | _, _ => some ["bad-op"]
+    else none
+  | _ => none
+
+def stepTable (s : St) (t : List String) : St × List String :=
   match t with
   | ["hash", k, hx] => match parseIdent? k, parseHexNat? hx with
     | some i, some v => ({ s with hashes := (i, v) :: s.hashes.filter (·.1 != i) }, [])
@@ -148,23 +180,6 @@ def step (s : St) (t : List String) : St × List String :=
   | ["hashic", hx] => match parseHex? hx with
     | some bs => (s, ["W hashic " ++ hex64 (hashIgnoreCase bs)])
     | none => bad s
-  | ["hl2", hx] => match parseHex? hx with
-    | some bs =>
-      let hb := hex64 (AwsVerif.Lookup3.hashBytes bs)
-      let hc := hex64 (AwsVerif.Lookup3.hashCStr bs)
-      (s, ["P hl2 consistent=1", s!"W hl2 cur={hb},{hb},{hb},{hb} str={hb} cstr={hc},{hc},{hc},{hc}"])
-    | none => bad s
-  | ["hl2s", hx, ax] => match parseHex? hx, parseHex? ax with
-    | some bs, some _ =>
-      let hb := hex64 (AwsVerif.Lookup3.hashBytes bs)
-      (s, ["P hl2s consistent=1", s!"W hl2s cur={hb},{hb},{hb},{hb}"])
-    | _, _ => bad s
-  | ["hptr", v] => match parseHexNat? v with
-    | some p => (s, ["W hptr " ++ hex64 (AwsVerif.Lookup3.hashPtr (p % 2 ^ 64))])
-    | none => bad s
-  | ["hcomb", a, b] => match parseHexNat? a, parseHexNat? b with
-    | some a, some b => (s, ["W hcomb " ++ hex64 (AwsVerif.Lookup3.hashCombine (a % 2 ^ 64) (b % 2 ^ 64))])
-    | _, _ => bad s
   | ["eqic", a, b] => match parseHex? a, parseHex? b with
     | some a, some b => (s, [s!"P eqic {if eqIgnoreCase a b then 1 else 0} hasheq={if hashIgnoreCase a == hashIgnoreCase b then 1 else 0}"])
     | _, _ => bad s
@@ -282,6 +297,11 @@ def step (s : St) (t : List String) : St × List String :=
            "P V " ++ joinOrDash (sortStrs vis), "W V " ++ joinOrDash vis] ++ stateLines n (some r.table))
     | none => bad s
   | _ => bad s
+
+def step (s : St) (t : List String) : St × List String :=
+  match hashOp? t with
+  | some out => (s, out)
+  | none => stepTable s t
 
 def component : Component := { σ := St, init := {}, step := step }
 end Driver.HashTableD
